@@ -161,6 +161,7 @@ PROPS["C16"] = {
     "assumptions": WIRE_ASSUME + ["a message whose sender index is out of range may be dropped or delivered with any sender: the statement does not say"],
     "legs": [rapid("gen", "wire", "TestHostileEnvelope", 20000, 300000, shards=(2, 12)),
              plain("enum", "wire", "TestHostileEnum"),
+             rapid("bytes", "wire", "TestWireBytes", 20000, 300000, shards=(2, 12)),
              fuzz("fuzz", "wire", "FuzzEnvelopeBytes", 90)],
 }
 
